@@ -123,7 +123,7 @@ ADDENDA3 = {
     "C07": "Round 3: the current module's constructor table answers only for types of the current module — a prelude type is looked up in the prelude (fixed: a local type named like a prelude type hijacked the exhaustiveness check).",
     "C08": "Round 3: a SerializableProgram version variant is written only in a match arm on that version or under the hash comparison for it; Project::address and ::policy hash a loaded validator under its own version (fixed: address used the project configuration's); the delegation part keeps the kind of the stake credential.",
     "C09": "Round 3: the reduce step of the parallel parse looks for common keys before it extends; flags folded over the directory walk are monotone; Definitions::register leaves no in-progress mark behind on an error (fixed: --include-all-types was hash-order dependent); inside the hash-ordered loops of Blueprint::new definitions are only added to.",
-    "C16": "Round 3: TestResult::is_success, evaluated as a finite decision table over (Err | Ok(None) | Ok(Some)) x (3 modes), equals the specification; the seed given on the command line reaches the run unchanged.",
+    "C16": "Round 3: TestResult::is_success, evaluated as a finite decision table over (Err | Ok(None) | Ok(Some)) x (3 modes), equals the specification; the seed given on the command line reaches the run unchanged; a reified Pair keeps its components in place (the Vec operations of that arm are simulated).",
     "C17": "Round 3: no static or thread_local holds reference-counted AST data.",
     "C18": "Round 3: an application too many is an Err whatever the form of Validator::apply; every lockstep walk of a value and its schema compares the two lengths first; the interactive construction of a parameter uses the declared constructor index of the chosen alternative (fixed: it used the position in anyOf).",
     "C20": "Round 3: a parser action converting a sequence into a non-empty vector with expect is fed by `.at_least(1)`; an error value whose construction can panic is built lazily.",
